@@ -237,6 +237,31 @@ class T:
                 if st != 'ok' or not same_value(res, v):
                     self.ctx.violation({'value': repr(v)}, {'what': 'typed value does not survive dump/load', 'dumper': dname, 'loader': lname, 'text': out, 'got': repr(res)}, classify_value(v))
             ctx.stat('value_dumps')
+            # the same value inside collections, in flow and block form and under every requested scalar style: whatever
+            # style the emitter ends up with, the text must read back as the same typed value
+            combos = [(wrap, {'default_flow_style': fs}) for wrap in ('list', 'value', 'key') for fs in (None, True, False)]
+            combos += [('list', {'default_style': st}) for st in ('"', "'", '|', '>')] + [('value', {'default_flow_style': True, 'default_style': "'"}), ('list', {'canonical': True})]
+            for wrap, opts in combos:
+                if wrap == 'key' and (v is None or (isinstance(v, float) and v != v)):
+                    continue
+                w = [v] if wrap == 'list' else ({'k': v} if wrap == 'value' else {v: 'k'})
+                try:
+                    out2 = yaml.dump(w, Dumper=getattr(yaml, dname), **opts)
+                except Exception as e:
+                    self.ctx.violation({'value': repr(v)}, {'what': 'dump raised', 'dumper': dname, 'wrap': wrap, 'opts': opts, 'exc': type(e).__name__}, None)
+                    continue
+                for lname in self.loaders:
+                    st, res = self.load(out2, lname)
+                    got = None
+                    if st == 'ok':
+                        try:
+                            got = res[0] if wrap == 'list' else (res['k'] if wrap == 'value' else next(iter(res)))
+                        except Exception:
+                            st = 'shape'
+                    if st != 'ok' or not same_value(got, v):
+                        self.ctx.violation({'value': repr(v)}, {'what': 'typed value does not survive dump/load inside a collection', 'dumper': dname, 'loader': lname, 'wrap': wrap, 'opts': opts,
+                                                                'text': out2, 'got': repr(res)[:200]}, classify_value(v))
+                ctx.stat('value_dumps_in_context')
 
 
 def classify_value(v):
